@@ -1043,6 +1043,17 @@ class Converter:
                         f"RHS must be a Call expression for unpacking, found: '{type(rhs)!r}'",
                     )
                 callee, inputs, attrs = self._translate_call_expr(rhs)
+                op_signature = callee.op_signature
+                if op_signature is not None and op_signature.outputs:
+                    num_outputs = len(op_signature.outputs)
+                    if len(lhs.elts) > num_outputs and not any(
+                        output.variadic for output in op_signature.outputs
+                    ):
+                        self._fail(
+                            lhs,
+                            f"Too many targets to unpack: {len(lhs.elts)} targets for "
+                            f"{num_outputs} output(s) of '{callee.name}'.",
+                        )
 
                 def generate_onnx_name(x: ast.AST):
                     if not isinstance(x, ast.Name):
